@@ -6,5 +6,6 @@ import "verif/harness"
 func C11Workloads() []harness.Workload {
 	return []harness.Workload{
 		{Name: "router-macro", Quick: 20000, Thorough: 1000000, Run: RunRouterMacro},
+		{Name: "router-fine", Quick: 3000, Thorough: 200000, Run: RunRouterFine},
 	}
 }
